@@ -1283,8 +1283,15 @@ br_ssl_engine_renegotiate(br_ssl_engine_context *cc)
 
 	if (br_ssl_engine_closed(cc) || cc->reneg == 1
 		|| (cc->flags & BR_OPT_NO_RENEGOTIATION) != 0
-		|| br_ssl_engine_recvapp_buf(cc, &len) != NULL)
+		|| br_ssl_engine_recvapp_buf(cc, &len) != NULL
+		|| (cc->iomode == BR_IO_IN && cc->ibuf == cc->obuf))
 	{
+		/*
+		 * (Last case: a shared buffer is currently receiving a
+		 * record; nothing can be written until that record has
+		 * been processed, and it may itself be a handshake
+		 * message that only the handshake processor can consume.)
+		 */
 		return 0;
 	}
 	jump_handshake(cc, 2);
